@@ -2956,6 +2956,14 @@ class Group(System):
         """
         if self._relevance_changed():
             self._jacobian = None
+            if self._owns_approx_jac and self._approx_schemes and not self._first_call_to_linearize:
+                # the approximations were set up for the variables relevant to the previous
+                # relevance object, so they have to be set up again.
+                self._clear_jac_caches()
+                if self._get_coloring() is None or not coloring_mod._use_partial_sparsity:
+                    self._setup_approx_derivs()
+                else:
+                    self._setup_approx_coloring()
 
         if self._jacobian is None:
             if self._owns_approx_jac:
